@@ -114,3 +114,22 @@ func VSchemaDigest(s ExchangeSchema) string {
 	}
 	return "?"
 }
+
+// VUsedNames returns the usedUserTypes / usedUserEnums lists the emitter writes for a
+// schema (nil, nil for schemas that have none); err is the emitter's own compile error.
+func VUsedNames(s ExchangeSchema) (types, enums []string, err error) {
+	e, ok := s.(*ExchangeJSightSchema)
+	if !ok || e == nil {
+		return nil, nil, nil
+	}
+	if err := e.Compile(); err != nil {
+		return nil, nil, err
+	}
+	if e.exchangeUsedUserTypes != nil {
+		types = e.exchangeUsedUserTypes.Data()
+	}
+	if e.exchangeUsedUserEnums != nil {
+		enums = e.exchangeUsedUserEnums.Data()
+	}
+	return types, enums, nil
+}
